@@ -49,7 +49,7 @@ def h_tlv(ctx, n, twin=False):
         val = bytes((7 * i + 1) & 0xFF for i in range(n))
     else:
         val = ctx.octets("val", n)
-    e, tlv = call(CfdpTlv, t, val)
+    e, tlv = call(CfdpTlv, en(ctx, TlvType, t), val)
     if n > 255:
         ctx.holds("value longer than 255 octets refused with ValueError", isinstance(e, ValueError), exc_name(e))
         return
@@ -73,7 +73,7 @@ def h_tlv(ctx, n, twin=False):
                                 [lambda: CfdpTlv.unpack(bytes([6, 3, 9, 8, 7])), lambda: CfdpTlv.unpack(bytes([0, 0]))])
     pack_hands_out_fresh_buffers(ctx, tlv.pack, ctx.bytes_of([t, n] + items_of(val)))
     t2 = sym_type(ctx, "t2")
-    tlv.tlv_type = t2
+    tlv.tlv_type = en(ctx, TlvType, t2)
     ctx.holds("pack after tlv_type assignment carries the new type", sym_and(tlv.pack() == ctx.bytes_of([t2, n] + items_of(val)), tlv.tlv_type == t2))
     if twin:
         ctx.holds("twin", raw != ctx.bytes_of([t, n] + items_of(val)))
@@ -218,7 +218,7 @@ def h_fault(ctx):
     cond = ctx.int("cond", 0, 15)
     ctx.assume(member(cond, COND_VALUES))
     hc = ctx.int("handler", 1, 4)
-    o = FaultHandlerOverrideTlv(cond, hc)
+    o = FaultHandlerOverrideTlv(en(ctx, ConditionCode, cond), en(ctx, FaultHandlerCode, hc))
     raw = o.pack()
     ctx.holds("pack == reference layout", raw == ctx.bytes_of([4, 1, (cond << 4) | hc]))
     ctx.holds("packet_len == len(pack)", sym_and(o.packet_len == 3, len(raw) == 3))
@@ -234,7 +234,7 @@ def ref_fs(action, status, n1, n2, msg=None):
 def h_fsreq(ctx, s1, s2):
     action = ctx.int("action", 0, 8)
     n1, n2 = ctx.text("n1", s1), ctx.text("n2", s2)
-    o = FileStoreRequestTlv(action, n1, n2)
+    o = FileStoreRequestTlv(en(ctx, FilestoreActionCode, action), n1, n2)
     raw = o.pack()
     b1, b2 = items_of(n1.encode()), items_of(n2.encode())
     has2 = bool(member(action, SNP))
@@ -255,7 +255,7 @@ def h_fsresp(ctx, s1, s2, m):
     action = full >> 4
     n1, n2 = ctx.text("n1", s1), ctx.text("n2", s2)
     msg = ctx.octets("msg", m)
-    o = FileStoreResponseTlv(action, full, n1, n2, CfdpLv(msg))
+    o = FileStoreResponseTlv(en(ctx, FilestoreActionCode, action), en(ctx, FilestoreResponseStatusCode, full), n1, n2, CfdpLv(msg))
     raw = o.pack()
     b1, b2 = items_of(n1.encode()), items_of(n2.encode())
     has2 = bool(member(action, SNP))
